@@ -99,6 +99,7 @@ MUTANTS = [
     ("plots-fallback-two-directions", PLOTS, "x = (p1[0], p2[0], p3[0], p4[0])\n        y = (p1[1], p2[1], p3[1], p4[1])", "x = (p1[0], p2[0])\n        y = (p1[1], p2[1])", ["C18"], []),
     ("plots-infeasible-status-ignored", PLOTS, 'if res["status"] == 2:\n        raise ValueError("Constraints are unfeasible")', "pass", ["C18"], []),
     ("plots-y-limits-swapped", PLOTS, "constraints.append(PolyhedralTerm({y_var: 1}, y_lims[1]))", "constraints.append(PolyhedralTerm({y_var: 1}, x_lims[1]))", ["C18"], []),
+    ("reduce-polytope-context-assert", POLY, "elif np.any(np.asarray(b_help) < 0):\n            # the context only has constraints without variables (0 <= b): a negative b makes it unsatisfiable\n            raise ValueError(\"The constraints are unsatisfiable\")", "else:\n            assert len(b_help) == 0", ["C14", "C07"], []),
 ]
 
 
